@@ -164,6 +164,8 @@ pub enum JunkKind {
     ForeignId(u16),
     /// Trace identifier forced to zero (ICMP only).
     ForeignIdZero,
+    /// Echo Reply from another target carrying the sibling tracer's identifier (ICMP only).
+    ForeignEchoReply(u16),
     /// Quotation with another destination address (UDP/TCP).
     ForeignTarget,
     /// Quotation with another fixed port (UDP/TCP).
@@ -172,6 +174,19 @@ pub enum JunkKind {
     NeverSent(i32),
     /// Well-formed quotation naming the next unissued sequence.
     NextUnissued,
+}
+
+#[derive(Debug, Clone, Default)]
+pub struct ForgePlan {
+    edits: Vec<(usize, u16)>,
+    flip: Option<usize>,
+    echo_reply: Option<u16>,
+}
+
+#[derive(Debug, Clone)]
+pub enum JunkSrc {
+    Resp(usize),
+    Plan(ForgePlan),
 }
 
 #[derive(Debug, Clone)]
@@ -753,10 +768,12 @@ impl World {
         self.wrap_icmp(from, icmp, 0)
     }
 
-    /// Candidate junk datagrams at this instant, in a deterministic order.
-    fn junk_candidates(&self) -> Vec<(JunkKind, usize, Vec<u8>, IpAddr)> {
+    /// Candidate junk datagrams at this instant, in a deterministic order.  Only the *plan* is
+    /// computed here (cheap); the bytes are built when a candidate is chosen.
+    fn junk_candidates(&self) -> Vec<(JunkKind, usize, JunkSrc)> {
         let mut out = vec![];
         let cur: Vec<&SentRec> = self.sent.iter().filter(|s| s.round == self.round).collect();
+        let mut base_cache: Option<Option<usize>> = None;
         for k in &self.cfg.menu.junk {
             match *k {
                 JunkKind::Duplicate => {
@@ -764,10 +781,9 @@ impl World {
                         .deliveries
                         .iter()
                         .rev()
-                        .find(|d| d.round == self.round && d.genuine)
+                        .find(|d| d.round == self.round && d.genuine && !self.resps[d.resp].bytes.is_empty())
                     {
-                        let r = &self.resps[d.resp];
-                        out.push((*k, r.for_sent, r.bytes.clone(), r.from));
+                        out.push((*k, self.resps[d.resp].for_sent, JunkSrc::Resp(d.resp)));
                     }
                 }
                 JunkKind::Late => {
@@ -777,29 +793,25 @@ impl World {
                             .resps
                             .iter()
                             .rev()
-                            .find(|r| r.genuine && self.sent[r.for_sent].round + 1 == self.round)
+                            .find(|r| r.genuine && !r.bytes.is_empty() && self.sent[r.for_sent].round + 1 == self.round)
                         {
-                            out.push((*k, r.for_sent, r.bytes.clone(), r.from));
+                            out.push((*k, r.for_sent, JunkSrc::Resp(r.id)));
                         }
                     }
                 }
-                JunkKind::ForeignId(_) | JunkKind::ForeignIdZero | JunkKind::ForeignTarget | JunkKind::ForeignPort | JunkKind::NeverSent(_) | JunkKind::NextUnissued => {
+                _ => {
                     // derived from the most recent probe of this round that is still unanswered,
                     // else the most recent probe of this round
-                    let answered: Vec<usize> = self
-                        .deliveries
-                        .iter()
-                        .filter(|d| d.genuine)
-                        .map(|d| d.for_sent)
-                        .collect();
-                    let base = cur
-                        .iter()
-                        .rev()
-                        .find(|s| !answered.contains(&s.idx))
-                        .or(cur.last());
+                    let base = *base_cache.get_or_insert_with(|| {
+                        cur.iter()
+                            .rev()
+                            .find(|s| !self.deliveries.iter().any(|d| d.genuine && d.for_sent == s.idx))
+                            .or(cur.last())
+                            .map(|s| s.idx)
+                    });
                     if let Some(base) = base {
-                        if let Some((bytes, from)) = self.forge(base, *k, &cur) {
-                            out.push((*k, base.idx, bytes, from));
+                        if let Some(plan) = self.forge_plan(&self.sent[base], *k, &cur) {
+                            out.push((*k, base, JunkSrc::Plan(plan)));
                         }
                     }
                 }
@@ -808,56 +820,47 @@ impl World {
         out
     }
 
-    /// Forge a well-formed response derived from `base` with one identity field altered.
-    fn forge(&self, base: &SentRec, kind: JunkKind, cur: &[&SentRec]) -> Option<(Vec<u8>, IpAddr)> {
-        let mut s = base.clone();
-        let l4 = s.l4off;
+    /// Decide whether (and how) a response derived from `base` with one identity field altered
+    /// can be forged: a list of 16-bit edits / one bit flip on the quoted datagram.
+    fn forge_plan(&self, base: &SentRec, kind: JunkKind, cur: &[&SentRec]) -> Option<ForgePlan> {
+        let l4 = base.l4off;
         let v6 = self.cfg.v6;
-        let set16 = |w: &mut Vec<u8>, off: usize, v: u16| {
-            if w.len() >= off + 2 {
-                w[off..off + 2].copy_from_slice(&v.to_be_bytes());
-            }
-        };
+        let w = &base.wire;
+        let get16 = |off: usize| u16::from_be_bytes([w[off], w[off + 1]]);
+        let mut plan = ForgePlan::default();
         match kind {
             JunkKind::ForeignId(delta) => {
-                if self.cfg.proto != Proto::Icmp {
+                if self.cfg.proto != Proto::Icmp || delta == 0 {
                     return None;
                 }
-                let id = u16::from_be_bytes([s.wire[l4 + 4], s.wire[l4 + 5]]).wrapping_add(delta);
-                if id == 0 {
+                plan.edits.push((l4 + 4, get16(l4 + 4).wrapping_add(delta)));
+            }
+            JunkKind::ForeignEchoReply(delta) => {
+                if self.cfg.proto != Proto::Icmp || delta == 0 {
                     return None;
                 }
-                set16(&mut s.wire, l4 + 4, id);
+                plan.echo_reply = Some(delta);
             }
             JunkKind::ForeignIdZero => {
-                if self.cfg.proto != Proto::Icmp {
+                if self.cfg.proto != Proto::Icmp || get16(l4 + 4) == 0 {
                     return None;
                 }
-                if u16::from_be_bytes([s.wire[l4 + 4], s.wire[l4 + 5]]) == 0 {
-                    return None;
-                }
-                set16(&mut s.wire, l4 + 4, 0);
+                plan.edits.push((l4 + 4, 0));
             }
             JunkKind::ForeignTarget => {
                 if self.cfg.proto == Proto::Icmp {
                     return None;
                 }
-                if v6 {
-                    s.wire[39] ^= 0x01;
-                } else {
-                    s.wire[19] ^= 0x01;
-                }
+                plan.flip = Some(if v6 { 39 } else { 19 });
             }
             JunkKind::ForeignPort => {
                 if self.cfg.proto == Proto::Icmp {
                     return None;
                 }
                 if self.cfg.fixed_sport.is_some() {
-                    let p = u16::from_be_bytes([s.wire[l4], s.wire[l4 + 1]]) ^ 0x0100;
-                    set16(&mut s.wire, l4, p);
+                    plan.edits.push((l4, get16(l4) ^ 0x0100));
                 } else if self.cfg.fixed_dport.is_some() {
-                    let p = u16::from_be_bytes([s.wire[l4 + 2], s.wire[l4 + 3]]) ^ 0x0100;
-                    set16(&mut s.wire, l4 + 2, p);
+                    plan.edits.push((l4 + 2, get16(l4 + 2) ^ 0x0100));
                 } else {
                     return None;
                 }
@@ -874,36 +877,62 @@ impl World {
                     return None;
                 }
                 let target = target as u16;
-                if cur.iter().any(|c| c.seq == Some(target)) {
+                // sequences of a round are consecutive: membership is a range test
+                if target >= first.seq? && target <= last.seq? {
                     return None;
                 }
                 match self.cfg.seq_loc {
-                    SeqLoc::IcmpSeq => set16(&mut s.wire, l4 + 6, target),
-                    SeqLoc::UdpDport | SeqLoc::TcpDport => set16(&mut s.wire, l4 + 2, target),
-                    SeqLoc::UdpSport | SeqLoc::TcpSport => set16(&mut s.wire, l4, target),
-                    SeqLoc::UdpCksum => set16(&mut s.wire, l4 + 6, target),
-                    SeqLoc::IpId => set16(&mut s.wire, 4, target),
+                    SeqLoc::IcmpSeq => plan.edits.push((l4 + 6, target)),
+                    SeqLoc::UdpDport | SeqLoc::TcpDport => plan.edits.push((l4 + 2, target)),
+                    SeqLoc::UdpSport | SeqLoc::TcpSport => plan.edits.push((l4, target)),
+                    SeqLoc::UdpCksum => plan.edits.push((l4 + 6, target)),
+                    SeqLoc::IpId => plan.edits.push((4, target)),
                     SeqLoc::PayloadLen => {
                         let len = i64::from(target) - i64::from(self.cfg.initial_sequence) + 14;
                         if !(14..=65535).contains(&len) {
                             return None;
                         }
-                        set16(&mut s.wire, l4 + 4, len as u16);
+                        plan.edits.push((l4 + 4, len as u16));
                     }
                 }
             }
             JunkKind::Duplicate | JunkKind::Late => return None,
         }
+        Some(plan)
+    }
+
+    fn forge_build(&self, base: &SentRec, plan: &ForgePlan) -> (Vec<u8>, IpAddr) {
+        let v6 = self.cfg.v6;
+        let l4 = base.l4off;
+        if let Some(delta) = plan.echo_reply {
+            let echo = wire::parse_echo(&base.wire[l4..]).expect("MACHINERY: echo");
+            // the sibling's own target answers the sibling's probe
+            let other = match self.cfg.dst {
+                IpAddr::V4(a) => IpAddr::V4(std::net::Ipv4Addr::from(u32::from(a) ^ 0x0000_0100)),
+                IpAddr::V6(a) => IpAddr::V6(std::net::Ipv6Addr::from(u128::from(a) ^ 0x0100)),
+            };
+            let (typ, pseudo) = if v6 {
+                (wire::ICMP6_ECHO_REPLY, Some((other, self.cfg.src)))
+            } else {
+                (wire::ICMP4_ECHO_REPLY, None)
+            };
+            let icmp = wire::build_echo(typ, echo.id.wrapping_add(delta), echo.seq, &echo.payload, pseudo);
+            return (self.wrap_icmp(other, icmp, 0), other);
+        }
+        let mut s = base.clone();
+        for &(off, v) in &plan.edits {
+            if s.wire.len() >= off + 2 {
+                s.wire[off..off + 2].copy_from_slice(&v.to_be_bytes());
+            }
+        }
+        if let Some(off) = plan.flip {
+            s.wire[off] ^= 0x01;
+        }
         // answered by the first hop (Time Exceeded), quoting in full so every field is visible
-        let from = self
-            .cfg
-            .topo
-            .hops
-            .first()
-            .map_or(self.cfg.dst, |h| h.addr);
+        let from = self.cfg.topo.hops.first().map_or(self.cfg.dst, |h| h.addr);
         let (q, _) = self.quoted(&s, 0, None, Quote::Full);
         let icmp = self.icmp_error(from, true, 0, &q, None);
-        Some((self.wrap_icmp(from, icmp, 0), from))
+        (self.wrap_icmp(from, icmp, 0), from)
     }
 
     fn is_readable(&mut self, timeout: Duration) -> bool {
@@ -999,7 +1028,11 @@ impl World {
             }
             Alt::Junk(j) => {
                 self.n_junk += 1;
-                let (kind, for_sent, bytes, from) = junk[j].clone();
+                let (kind, for_sent, src) = junk[j].clone();
+                let (bytes, from) = match &src {
+                    JunkSrc::Resp(r) => (self.resps[*r].bytes.clone(), self.resps[*r].from),
+                    JunkSrc::Plan(p) => self.forge_build(&self.sent[for_sent], p),
+                };
                 let bytes = if self.cfg.menu.inert_junk {
                     self.inert_bytes()
                 } else {
